@@ -15,10 +15,34 @@ COMMON_ASSUME = [
     "a passing run means: held on the executions listed here, nothing more",
 ]
 
+HOOK_COMMITS = ["e8b910d"]
+
+# properties deliberately not claimed, with the reason (none so far: all 20 are in scope)
+NOT_APPLICABLE = {}
+
 PROPS = {
     "C01": {
         "quick": [L("checked", 1.0), L("wrapping", 0.25)],
         "thorough": [L("checked", 1.0), L("wrapping", 0.25), L("asan", 0.05), L("miri", 0.00002, workers=16)],
         "assumptions": COMMON_ASSUME,
+    },
+    "C03": {
+        "quick": [L("checked", 1.0), L("wrapping", 0.25)],
+        "thorough": [L("checked", 1.0), L("wrapping", 0.5), L("asan", 0.02), L("miri", 0.00001, workers=16)],
+        "assumptions": COMMON_ASSUME,
+        "exhaustive_notes": ["single allocate/deallocate/truncate operations over archives of 0..=4 cells x 3 annotation patterns x a in 0..=size+5 x n in {0,1,2,4,8,12,size,size+4} x ge", "all pairs of those operations on archives of <=3 cells over the reduced grid (aligned a, n in {0,4,8})"],
+    },
+    "C04": {
+        "quick": [L("checked", 1.0), L("wrapping", 1.0)],
+        "thorough": [L("checked", 1.0), L("wrapping", 1.0), L("miri", 0.0001, workers=16)],
+        "assumptions": COMMON_ASSUME,
+        "exhaustive_notes": ["boundary grid: sizes {0..=9,16,255,256,4096} x endian x every accessor (positional and stream) x addresses {0..=size+8} u huge set x read_bytes/write_bytes length grid"],
+    },
+    "C02": {
+        "quick": [L("checked", 1.0), L("wrapping", 0.25), L("checked", 1.0, mode="det", replicas=8)],
+        "thorough": [L("checked", 1.0), L("wrapping", 0.25), L("checked", 1.0, mode="det", replicas=16),
+                     L("wrapping", 1.0, mode="det", replicas=8), L("miri", 0.00002, workers=8)],
+        "digest_rule": "nondeterministic_across_processes",
+        "assumptions": COMMON_ASSUME + ["determinism is probabilistic evidence over hash-key draws (each map instance and each process has its own keys)"],
     },
 }
